@@ -1,5 +1,6 @@
 """C14 — applying the sustain pedal holds exactly the notes the pedal holds (DESIGN 6.14)."""
 import inspect
+import math
 from fractions import Fraction as F
 
 from harness import nswire
@@ -14,6 +15,7 @@ THEOREMS = [
     'NSV.C14.sustain_other_instruments_untouched', 'NSV.C14.sustain_no_pedal_identity',
     'NSV.C14.sustain_total_covers', 'NSV.C14.sustain_rejects_quantized',
     'NSV.C14.sustain_frame',
+    'NSV.C14.heldEnd_press_after_end', 'NSV.C14.sustain_press_after_end_not_held',
 ]
 
 
@@ -47,10 +49,37 @@ def generate(chk):
 PEDAL_VALUES = [0, 0, 63, 63, 64, 64, 127, 127, 1, 100]
 
 
+NEAR_DELTAS = [1e-12, 1e-10, 1e-9, 1e-8, 1e-7, 2e-7, 3e-7, 4e-7, 4.9e-7, 5e-7, 5.1e-7, 7e-7, 9e-7, 9.9e-7, 1e-6, 1.5e-6, 2e-6]
+EXTREME_TIMES = [0.0, 5e-324, 2.2250738585072014e-308, 1e-300, 1e-9, 1e-6, 0.5, 1.0, 4.0, 86400.0, 1e9, 2.0 ** 53, 1e15, 1e300,
+                 1.7976931348623157e308]
+
+
+def nudge(rng, t):
+    """a time NEAR t but different from it: 1-3 ulps, a 1e-12..1e-6 relative step or an absolute step
+    between a picosecond and two microseconds (so that exact comparison, comparison after rounding to
+    milli/microseconds and comparison within a tolerance all give different answers)."""
+    r = rng.random()
+    if r < 0.3:
+        u = t
+        for _ in range(rng.choice([1, 1, 2, 3])):
+            u = math.nextafter(u, math.inf if rng.random() < 0.5 else 0.0)
+    elif r < 0.45:
+        u = t * (1 + rng.choice([-1, 1]) * rng.choice([1e-12, 1e-9, 1e-7, 1e-6]))
+    else:
+        u = t + rng.choice([-1, 1]) * rng.choice(NEAR_DELTAS)
+    if u >= 0 and u != t and u != math.inf:
+        return u
+    return math.nextafter(t, math.inf) if t < 1e308 else math.nextafter(t, 0.0)
+
+
 def _pool(rng):
     """a small pool of times (dyadic grid, two-decimal and arbitrary doubles): every start, end and
-    pedal time is drawn from it, so coincidences are the rule, not the exception."""
+    pedal time is drawn from it, so coincidences are the rule, not the exception.  A third of the pools
+    also contain NEAR-coincident twins (1-3 ulps ... 2 microseconds apart) of their own members; a few
+    pools consist of the extreme ends of the double range."""
     k = rng.random()
+    if rng.random() < 0.04:
+        return sorted(rng.sample(EXTREME_TIMES, rng.choice([3, 4, 6, 8])))
     size = rng.choice([3, 4, 6, 8, 10])
     pool = set()
     while len(pool) < size:
@@ -61,6 +90,10 @@ def _pool(rng):
             pool.add(round(rng.uniform(0, 4), 2))
         else:
             pool.add(rng.uniform(0, 4))
+    if rng.random() < 0.35:
+        base = sorted(pool)
+        for _ in range(rng.choice([1, 1, 2, 3, 5])):
+            pool.add(nudge(rng, rng.choice(base)))
     return sorted(pool)
 
 
@@ -82,7 +115,8 @@ def _pedals(ns, rng, ninst, pool, ctl):
     insts = list(range(ninst)) + ([ninst] if r.random() < 0.2 else [])   # sometimes an instrument without notes
     for _ in range(k):
         c = ns.control_changes.add()
-        c.time = r.choice(pool) if r.random() < 0.9 else r.uniform(0, pool[-1] + 1.0)
+        k2 = r.random()
+        c.time = r.choice(pool) if k2 < 0.8 else nudge(r, r.choice(pool)) if k2 < 0.9 else r.uniform(0, min(pool[-1], 1e6) + 1.0)
         c.control_number = ctl if r.random() < 0.75 else r.choice([64, 66, 67, 7, 1, 0])
         c.control_value = r.choice(PEDAL_VALUES) if r.random() < 0.8 else r.randrange(128)
         c.instrument = r.choice(insts)
@@ -125,7 +159,7 @@ def gen_valid(rng):
     ns = music_pb2.NoteSequence()
     pool = _pool(rng)
     ninst = rng.choice([1, 1, 2, 3, 4])
-    pitches = rng.sample([60, 61, 62, 64, 36], rng.choice([1, 2, 3]))
+    pitches = rng.sample([60, 61, 62, 64, 36, 0, 127], rng.choice([1, 2, 3]))
     for inst in range(ninst):
         for pitch in pitches:
             if rng.random() < 0.3:
@@ -152,9 +186,13 @@ def gen_valid(rng):
     for _ in range(rng.choice([0, 0, 1, 2, 4])):
         a, b = sorted([rng.choice(pool), rng.choice(pool)])
         _note(ns, rng, rng.randrange(ninst), rng.choice(pitches + [38]), a, b if rng.random() < 0.8 else b + 1.5, drum=True)
-    ctl = 64 if rng.random() < 0.9 else rng.choice([66, 7, 0])
+    ctl = 64 if rng.random() < 0.9 else rng.choice([66, 7, 0, 127])
     _pedals(ns, rng, ninst, pool, ctl)
     _finish(ns, rng, pool)
+    if rng.random() < 0.1:        # instrument numbers from the far ends of the int32 range instead of 0..4
+        ids = rng.sample([0, 1, 9, 15, 255, 65536, 2 ** 31 - 1], 5)
+        for x in list(ns.notes) + list(ns.control_changes):
+            x.instrument = ids[x.instrument]
     return ctl, ns
 
 
@@ -166,7 +204,7 @@ def gen_overlap(rng):
     ns = music_pb2.NoteSequence()
     pool = _pool(rng)[:rng.choice([3, 4, 6])]
     ninst = rng.choice([1, 1, 2, 3])
-    pitches = rng.sample([60, 61, 62], rng.choice([1, 1, 2]))
+    pitches = rng.sample([60, 61, 62, 0, 127], rng.choice([1, 1, 2]))
     for _ in range(rng.choice([2, 3, 4, 6, 9, 12])):
         a, b = sorted([rng.choice(pool), rng.choice(pool)])
         if a == b and rng.random() < 0.5:
@@ -218,7 +256,7 @@ def gen_malformed(rng):
         else:
             ns.quantization_info.steps_per_second = rng.choice([100, 1, -3])
         for n in ns.notes:
-            n.quantized_start_step, n.quantized_end_step = int(n.start_time * 4), int(n.end_time * 4)
+            n.quantized_start_step, n.quantized_end_step = int(min(n.start_time * 4, 1e6)), int(min(n.end_time * 4, 1e6))
     return ctl, ns
 
 
@@ -311,17 +349,60 @@ def hold_reasons(ns, ctl, want):
     return f
 
 
-def oracle_case(sl, ctl, ns):
+def _apply(sl, ctl, ns):
+    try:
+        return (sl.apply_sustain_control_changes(ns, ctl) if ctl != 64 else sl.apply_sustain_control_changes(ns)), None
+    except Exception as e:  # pylint: disable=broad-except
+        return None, e
+
+
+def history(sl, ctl, ns, before, out, err):
+    """"returns a copy": the result is a new object that shares nothing with the argument or with an
+    earlier result, and the same call on the same (unchanged) argument gives the same answer again --
+    also after the caller has used (modified in place) what the first call returned."""
+    if out is ns:
+        return 'the argument itself was returned, not a copy'
+    first = out.SerializeToString(deterministic=True) if out is not None else None
+    if out is not None:
+        # the caller uses the result: every note and pedal event is changed in place, containers emptied
+        for o in out.notes:
+            o.end_time, o.start_time, o.pitch, o.instrument = o.end_time + 1.0, o.start_time + 0.5, (o.pitch + 1) % 128, (o.instrument + 1) % 1000
+        for c in out.control_changes:
+            c.time, c.control_value, c.instrument = c.time + 0.25, 127 - min(max(c.control_value, 0), 127), (c.instrument + 1) % 1000
+        out.total_time += 3.0
+        del out.notes[:]
+        if ns.SerializeToString(deterministic=True) != before:
+            return 'modifying the RESULT in place changed the argument (shared storage)'
+    out2, err2 = _apply(sl, ctl, ns)
+    if ns.SerializeToString(deterministic=True) != before:
+        return 'input modified by the second call'
+    if (err is None) != (err2 is None) or (err is not None and type(err) is not type(err2)):
+        return 'same call twice: first %s, then %s' % (type(err).__name__ if err else 'a result', type(err2).__name__ if err2 else 'a result')
+    if out2 is not None:
+        if out2 is out or out2 is ns:
+            return 'second call returned an object already handed out'
+        if out2.SerializeToString(deterministic=True) != first:
+            return 'same call twice on the same input: the second result differs from the first (after the first result was modified in place)'
+    return None
+
+
+def oracle_case(sl, ctl, ns, hist=True):
     """evaluate the property statement on the real code; returns (what fails | None, features)."""
     feats = set()
     before = ns.SerializeToString(deterministic=True)
-    try:
-        out = sl.apply_sustain_control_changes(ns, ctl) if ctl != 64 else sl.apply_sustain_control_changes(ns)
-        err = None
-    except Exception as e:  # pylint: disable=broad-except
-        out, err = None, e
+    out, err = _apply(sl, ctl, ns)
     if ns.SerializeToString(deterministic=True) != before:
         return 'input modified', feats
+    if hist:
+        keep = None
+        if out is not None:
+            keep = type(ns)()
+            keep.CopyFrom(out)
+        r = history(sl, ctl, ns, before, out, err)
+        if r:
+            return r, feats
+        feats.add('history:twice+result-modified-between')
+        out = keep
     quantized = ns.quantization_info.steps_per_quarter > 0 or ns.quantization_info.steps_per_second > 0
     if quantized:
         feats.add('quantized-rejected')
@@ -386,6 +467,28 @@ def features(ns, ctl, impl_line):
             f.add('value-%d' % v)
         if v < 0 or v > 127:
             f.add('value-out-of-range')
+    # near-coincidences: two events of one instrument less than 2 microseconds, but not zero, apart
+    per = {}
+    for n in ns.notes:
+        if not n.is_drum:
+            per.setdefault(n.instrument, []).extend([(n.start_time, 'note-on'), (n.end_time, 'note-off')])
+    for t, typ, inst, v in evs:
+        per.setdefault(inst, []).append((t, 'pedal-on' if typ == 0 else 'pedal-off'))
+    for lst in per.values():
+        lst.sort()
+        for (t0, k0), (t1, k1) in zip(lst, lst[1:]):
+            if t0 != t1 and t1 - t0 < 2e-6:
+                f.add('near-coincident(<2us)')
+                if k0 != k1:
+                    f.add('near-coincident:' + '/'.join(sorted([k0, k1])))
+                if t1 - t0 <= 4 * math.ulp(t1):
+                    f.add('near-coincident(<=4ulp)')
+                if round(t0, 6) == round(t1, 6) or round(t0, 3) == round(t1, 3) and t1 - t0 < 1e-6:
+                    f.add('near-coincident:same-after-rounding')
+    if any(n.pitch in (0, 127) for n in ns.notes):
+        f.add('pitch-0-or-127')
+    if any(t != 0 and (t < 1e-100 or t > 1e12) for lst in per.values() for t, _ in lst):
+        f.add('extreme-times')
     if any(n.is_drum for n in ns.notes):
         f.add('drums')
     if any(c.control_number != ctl for c in ns.control_changes):
